@@ -2,6 +2,7 @@
 from __future__ import annotations
 
 import glob
+import z3
 import os
 import time
 import traceback
@@ -80,6 +81,13 @@ def verify_functions(keys, *, prop=None, repo='/repo', scope=None, timeout_ms=10
         except Unsupported as ex:
             out['unsupported'][fkey] = str(ex)
             rec['unsupported'] = str(ex)
+        except (TypeError, NotImplementedError, AttributeError, KeyError, IndexError, z3.Z3Exception) as ex:
+            # a construct the translation does not handle: the function is OUTSIDE THE FRAGMENT (never a verdict); the
+            # traceback tail is kept so that a genuine engine bug is visible in the evidence
+            import traceback as _tb
+            why = f'engine limitation ({type(ex).__name__}: {str(ex)[:160]}) at ' + ' <- '.join(f'{fr.name}:{fr.lineno}' for fr in _tb.extract_tb(ex.__traceback__)[-3:])
+            out['unsupported'][fkey] = why
+            rec['unsupported'] = why
         rec['wall_s'] = round(time.time() - t0, 3)
         out['functions'].append(rec)
     return out
